@@ -232,15 +232,42 @@ type bipCase struct {
 	RNG        string // const-zero, const-a5, repeat32, nil (counter), honest
 }
 
+// shortReader is an honest random source that hands out its stream one byte per Read call (io.Reader allows that).
+type shortReader struct{ data []byte }
+
+func (s *shortReader) Read(p []byte) (int, error) {
+	if len(p) == 0 {
+		return 0, nil
+	}
+	if len(s.data) == 0 {
+		s.data = []byte{0x5a}
+	}
+	p[0] = s.data[0]
+	if len(s.data) > 1 {
+		s.data = s.data[1:]
+	}
+	return 1, nil
+}
+
 func bipRun(c bipCase) *pbt.Fail {
+	calls := 0
 	sign := func(key, msg string) ([]byte, error) {
 		sk := taproot.SecretKey(ref.Bytes32(conv.BigHex(key)))
 		var r io.Reader
+		calls++
 		switch c.RNG {
 		case "nil":
 			r = nil
 		case "honest":
 			r = rand.Reader
+		case "honest-short-reads":
+			// two honest streams that share their first byte and differ afterwards, delivered one byte per Read
+			st := make([]byte, 64)
+			for i := range st {
+				st[i] = byte(i*31 + 7*calls*(i+1))
+			}
+			st[0] = 0x42
+			r = &shortReader{data: st}
 		default:
 			r = reader(map[string]string{"const-zero": "zero", "const-a5": "a5", "repeat32": "repeat32"}[c.RNG])
 		}
@@ -284,9 +311,9 @@ func TestBIP340Nonce(t *testing.T) {
 		}
 		c := bipCase{KeyA: key("keyA"), MsgA: conv.Hex(rapid.SliceOfN(rapid.Byte(), 0, 64).Draw(rt, "msg"))}
 		c.KeyB, c.MsgB = c.KeyA, c.MsgA
-		c.RNG = rapid.SampledFrom([]string{"const-zero", "const-a5", "repeat32", "nil", "honest"}).Draw(rt, "rng")
+		c.RNG = rapid.SampledFrom([]string{"const-zero", "const-a5", "repeat32", "nil", "honest", "honest-short-reads"}).Draw(rt, "rng")
 		kinds := []string{"key", "message", "message-length"}
-		if c.RNG == "nil" || c.RNG == "honest" {
+		if c.RNG == "nil" || c.RNG == "honest" || c.RNG == "honest-short-reads" {
 			kinds = append(kinds, "none", "none")
 		}
 		c.Differ = rapid.SampledFrom(kinds).Draw(rt, "differ")
